@@ -428,6 +428,8 @@ def check_C14(rep, prog, tier):
     cases = _bcases(shapes, ['none'], prior='same', expect_no_block_writes=True)
     cases += _bcases([('FF', [1, 2])] if tier == 'quick' else [('FF', [1, 2]), ('FF', [1, 1])], ['crash'])
     cases += _bcases([('F', [1])] if tier == 'quick' else [('FF', [1, 2])], ['crash', 'empty_crash', 'fault'], prior='same')
+    # any mtime, including pre-1970 ones with a fractional part: an unchanged file must be recognised as unchanged
+    cases += _bcases([('F', [1])], ['none'], prior='same', expect_no_block_writes=True, sym_meta=True)
     # a group that mixes combined small files with directly recorded entries (empty files), two entries per hunk: the resumed
     # run must cut the tree into the same combined blocks as the interrupted run did
     cases.append(dict(kinds='FFFFF', classes=[1, 2, 3, 4, 5], mode='crash', sizes=[5, 0, 6, 0, 7], fixed_opts=(64, 16, 2)))
